@@ -857,6 +857,7 @@ def replay_canonical(viol):
 # ---------------------------------------------------------------- C10 (unification steps)
 UNI_PROGRAM = """
 :- use_module(library(lists)).
+:- use_module(library(iso_ext)).
 :- use_module(library(atts)).
 :- use_module(library(dif)).
 :- use_module(library(freeze)).
@@ -915,6 +916,19 @@ def replay_unification(viol):
         ("freeze(X, show(woke)), X = 1", "woke"),
         ("freeze(X, true), Y = X, ( Y == X -> show(same) ; show(different) )", "same"),
         ("put_atts_probe", None),
+        # the same pair of sub-terms met twice in one unification, with work left afterwards
+        ("S = g(_), T = g(_), u(f(S,S,a), f(T,T,b), R), showv(R)", "no"),
+        ("S = g(_), T = g(_), u(f(S,S,X), f(T,T,1), R), showv(R)", "yes(f(g(A),g(A),1))"),
+        ("S = [_], T = [_], u(f(S,S,a), f(T,T,b), R), showv(R)", "no"),
+        # occurs check with a string on the other side
+        ("partial_string(\"abc\", Ls, T), ( unify_with_occurs_check(T, Ls) -> show(unified) ; show(no) )", "no"),
+        ("partial_string(\"abc\", Ls, T), ( unify_with_occurs_check(Ls, T) -> show(unified) ; show(no) )", "no"),
+        ("( unify_with_occurs_check(X, f(X)) -> show(unified) ; show(no) )", "no"),
+        ("( unify_with_occurs_check(f(X), f(a)) -> show(yes(X)) ; show(no) )", "yes(a)"),
+        # strings with multi-byte characters against explicit list cells
+        ("explode(\"a\u00f1b\", L), u(\"a\u00f1b\", L, R), ( R = yes(_) -> show(yes) ; show(no) )", "yes"),
+        ("L = [X,Y,Z], \"a\u00f1b\" = L, atom_codes(Y, [C]), show(C)", "241"),
+        ("L = [X,Y,Z], \"a\u00f1b\" = L, show(Z)", "b"),
     ]
     cases = [c for c in cases if c[1] is not None]
     return run_cases(UNI_PROGRAM, cases, {"model": viol}, "C10", "unification", batch=True)
